@@ -16,7 +16,9 @@ written `acquireS i s` with `s` the value its load returned (`acquire i` is the 
 happened in between, `acquire_is_load_then_run`).  All history theorems range over these histories, i.e.
 over every schedule; what is trusted is that Redis runs a script atomically.
 -/
+import Std.Data.String.ToNat
 import GoZero.C19.Refine
+import GoZero.C19.Driver
 namespace GoZero.C19
 open Spec
 
@@ -221,6 +223,29 @@ theorem model_refines_lease_table (cfg : Nat → LockCfg) (ops : List Op) :
   intro k
   rw [hr.1]
   exact abs_view _ hr.2 k
+
+/-! ### the driver's monitors are sound for the model -/
+
+/-- the result monitor (`Spec.explain`, the property's wording of a wrong result) never fires on a result
+the model produces, from any state reachable by lock operations: a MONITOR line can only come from the
+implementation deviating from the model. -/
+theorem monitor_silent_on_model (cfg : Nat → LockCfg) (ops : List Op) (op : Op) :
+    Spec.explain cfg (Spec.run cfg ASt.init ops) op (step cfg (run cfg St.init ops) op).2 = none := by
+  have h0 : abs St.init = ASt.init := by
+    apply ASt.ext' <;> intros <;> rfl
+  have hr := run_refines cfg ops St.init hasTTL_init
+  rw [h0] at hr
+  unfold Spec.explain
+  rw [hr.1, step_refines cfg _ op hr.2]
+  simp
+
+/-- the configuration the driver uses (instance `i` ↦ key `k{i % keys}`, id `id{i}`) satisfies the
+assumption of the theorems: ids are distinct. -/
+theorem driver_cfg_distinct_ids (nkeys : Nat) : DistinctIds (mkCfg nkeys) := by
+  intro i j _ h
+  have e : ∀ i, (mkCfg nkeys i).id = "id" ++ Nat.repr i := by intro i; simp [mkCfg, toString]
+  rw [e, e] at h
+  exact Nat.repr_injective ((String.append_right_inj "id").mp h)
 
 /-! ### non-vacuity: concrete instances of the hypotheses and of the scenarios -/
 
